@@ -1295,7 +1295,7 @@ class IndexHierarchy(IndexBase):
             {skipna}
         '''
         # NOTE: do not need to udpate array cache, as can compare elemetns in levels
-        if id(other) == id(self):
+        if skipna and id(other) == id(self):
             return True
 
         if compare_class and self.__class__ != other.__class__:
